@@ -4,7 +4,8 @@
    ./check C08 and ./check C09): invocations = reads of reqCh, responses = writes of respCh.
    C09/Model.v: sequential KV specification and the executable checker `linearizable`;
    C09/Proofs.v: the checker decides the definition `lin_spec`, for every history. *)
-From PGV Require Import C09.Model C09.Proofs.
+From PGV Require Import C09.Model C09.Proofs C09.Proofs2.
+From PGV Require Import C08.Proofs1.
 
 (* the checker is sound and complete for the definition of linearizability, for every history *)
 Theorem linearizable_sound : forall h, linearizable h = true -> lin_spec h.
@@ -52,6 +53,35 @@ Proof.
   intros H. destruct raft_kv_linearizable_refuted as (cfg & evs & s & F & E & _ & N). exact (N (H cfg evs s F E)).
 Qed.
 Print Assumptions raft_kv_linearizable_is_false.
+
+(* What does hold (per-link FIFO network, any number of servers/clients, any crashes, timeouts, retries, leader changes):
+   an acknowledged Put is never lost. If the history contains the acknowledgement of client c's idx-th request Put(key,v), then the
+   log entry (term, [idx, Put, key, v], c) that produced it is applied at some index p, and in every continuation of the execution
+   every server whose commitIndex reaches p holds exactly that entry at p (so it is never overwritten, reordered or dropped). *)
+Theorem acknowledged_put_never_lost : forall cfg evs1 s1 c idx key v ok,
+  cfg_fifo cfg = true -> exec cfg (init cfg) evs1 = Some s1 ->
+  In (HResp c idx CPut key v ok) (history s1) ->
+  exists p e, e_client e = c /\ e_cmd e = mkCmd idx CPut key v /\ ok = true /\ applied cfg s1 p e /\
+    forall evs2 s2, exec cfg s1 evs2 = Some s2 ->
+      forall j, p <= s_commit (srv s2 j) -> log_at (s_log (srv s2 j)) p = Some e.
+Proof.
+  intros cfg evs1 s1 c idx key v ok Hf H1 Hin. unfold history in Hin. apply in_rev in Hin.
+  destruct (acknowledged_put_never_lost_lemma cfg s1 c idx key v ok Hf (exec_reachable cfg evs1 s1 H1) Hin)
+    as (p & e & A & B & C & D & E).
+  exists p, e. repeat split; auto. intros evs2 s2 H2. apply E. eapply exec_steps; eauto.
+Qed.
+Print Assumptions acknowledged_put_never_lost.
+
+(* non-vacuity: in the witness execution above both Puts are acknowledged (the theorem applies to them: the history is
+   non-linearizable although no acknowledged Put is lost -- the defect is the RE-application of Put(k1,v1)) *)
+Example never_lost_nonvacuous :
+  match exec w_cfg (init w_cfg) w_evs with
+  | Some s => In (HResp 7 1 CPut 1 1 true) (history s) /\ In (HResp 8 1 CPut 1 2 true) (history s) /\
+              map (fun e => (c_idx (e_cmd e), c_key (e_cmd e), c_val (e_cmd e), e_client e)) (s_log (srv s 1))
+              = [(1, 1, 1, 7); (1, 1, 2, 8); (1, 1, 1, 7); (2, 1, 0, 8)]
+  | None => False
+  end.
+Proof. vm_compute. repeat split; auto. Qed.
 
 (* ---------- non-vacuity of the checker: a concurrent history that is linearizable only by reordering overlapping operations,
    and the same history with a stale read, which is not ---------- *)
